@@ -201,6 +201,9 @@ func immutableGlobal(g *ssa.Global) bool {
 				if b, isB := x.Call.Value.(*ssa.Builtin); isB && (b.Name() == "len" || b.Name() == "cap") {
 					continue
 				}
+				if pureSliceReader(CalleeName(&x.Call)) {
+					continue
+				}
 				// handed to a function of the same package: what that function does with its parameter counts
 				if callee := x.Call.StaticCallee(); callee != nil && callee.Pkg == g.Pkg && len(callee.Blocks) > 0 && x.Call.Value != v {
 					for i, a := range x.Call.Args {
